@@ -85,8 +85,9 @@ from .ast import (
 )
 
 def quote(s):
-    assert s.replace('_', '').replace('.', '').replace('/', '').isalnum(), \
-        'Only use quote() with names or IDs in Stone.'
+    # Callers pass names taken from the spec text, including identifiers with
+    # '-' and the free text of doc references; never fail while building an
+    # error message.
     return "'%s'" % s
 
 def parse_data_types_from_doc_ref(api, doc, namespace_context, ignore_missing_entries=False):
